@@ -59,10 +59,30 @@ theorem sizeOfVarInt_eq (x : Int) : sizeOfVarInt x = (varint x).length := by
 theorem varIntLen_eq (x : Int) : varIntLen x = (varint x).length := by
   rw [varint_length]; rfl
 
-theorem writeVarNullBytes_eq (b : Option Bytes) : writeVarNullBytes b = varbytes b := by cases b <;> rfl
+/-! The sizing / writing helpers of protocol/size.go and protocol/encode.go call, NOW, the zig-zag functions (the names
+are read off the source by `go/extract sizefns` on every run): these lemmas stop to hold when one of them switches to the
+unsigned varint, and with them `recordV2_eq` and everything that says the writer emits the Spec encoding. -/
+
+theorem prefixSize_zz (n : Int) : prefixSize "sizeOfVarInt" n = (varint n).length := by
+  simp [prefixSize, sizeOfVarInt_eq]
+
+theorem prefixBytes_zz (n : Int) : prefixBytes "writeVarInt" n = varint n := by
+  simp [prefixBytes]
+
+theorem writeVarNullBytes_eq (b : Option Bytes) : writeVarNullBytes b = varbytes b := by
+  cases b <;> simp [writeVarNullBytes, nth, Gen.SizeFns.writeVarNullBytesCalls, prefixBytes_zz, varbytes]
+
+theorem writeVarNullBytesFrom_eq (b : Option Bytes) : writeVarNullBytesFrom b = varbytes b := by
+  cases b <;> simp [writeVarNullBytesFrom, nth, Gen.SizeFns.writeVarNullBytesFromCalls, prefixBytes_zz, varbytes]
 
 theorem sizeOfVarNullBytes_eq (b : Option Bytes) : sizeOfVarNullBytes b = (varbytes b).length := by
-  cases b <;> simp [sizeOfVarNullBytes, varbytes, sizeOfVarInt_eq]
+  cases b <;> simp [sizeOfVarNullBytes, nth, Gen.SizeFns.varNullBytesCalls, prefixSize_zz, varbytes]
+
+theorem sizeOfVarNullBytesIface_eq (b : Option Bytes) : sizeOfVarNullBytesIface b = (varbytes b).length := by
+  cases b <;> simp [sizeOfVarNullBytesIface, nth, Gen.SizeFns.varNullBytesIfaceCalls, prefixSize_zz, varbytes]
+
+theorem sizeOfVarString_eq (s : Bytes) : sizeOfVarString s = (varint (s.length : Int)).length + s.length := by
+  simp [sizeOfVarString, nth, Gen.SizeFns.varStringCalls, prefixSize_zz]
 
 theorem varint_neg_one_length : (varint (-1)).length = 1 := by
   simp only [varint]; rw [uvarint]; simp [zigzag]
@@ -78,13 +98,15 @@ theorem varBytesLen_eq (b : Option Bytes) : varBytesLen b = (varbytes b).length 
 theorem writeHeaders_eq (hs : List Hdr) : writeHeaders hs = encHdrs hs := by
   induction hs with
   | nil => rfl
-  | cons h hs ih => simp [writeHeaders, encHdrs, writeHeader, encHdr, writeVarNullBytes_eq, ih]
+  | cons h hs ih =>
+    simp [writeHeaders, encHdrs, writeHeader, encHdr, writeVarNullBytes_eq, ih, nth, Gen.SizeFns.writeVarStringCalls,
+      prefixBytes_zz]
 
 theorem headersSize_eq (hs : List Hdr) : headersSize hs = (encHdrs hs).length := by
   induction hs with
   | nil => rfl
   | cons h hs ih =>
-    simp [headersSize, encHdrs, encHdr, sizeOfVarString, sizeOfVarNullBytes_eq, sizeOfVarInt_eq, ih]; omega
+    simp [headersSize, encHdrs, encHdr, sizeOfVarString_eq, sizeOfVarNullBytes_eq, ih]; omega
 
 theorem headersLen_eq (hs : List Hdr) : headersLen hs = (encHdrs hs).length := by
   induction hs with
@@ -105,9 +127,9 @@ theorem recordV2_eq (first : Int) (i : Nat) (t : Int) (r : PRec) :
     recordV2 first i t r = encRec (specRec (t - first) i r) := by
   have hl := recBody_length (specRec (t - first) i r)
   simp only [specRec] at hl
-  simp only [recordV2, encRec, sizeOfVarInt_eq, sizeOfVarNullBytes_eq, headersSize_eq]
+  simp only [recordV2, encRec, sizeOfVarInt_eq, sizeOfVarNullBytesIface_eq, headersSize_eq]
   rw [← hl]
-  simp [recBody, specRec, writeVarNullBytes_eq, writeHeaders_eq]
+  simp [recBody, specRec, writeVarNullBytesFrom_eq, writeHeaders_eq]
 
 theorem recordSize_eq (d : Int) (i : Nat) (r : PRec) : recordSize d i r = (recBody (specRec d i r)).length := by
   rw [recBody_length]
